@@ -61,17 +61,46 @@ func (u *Unit) ghost(s *State, name string, so Sort) Term {
 // ---------------------------------------------------------------------------
 // component naming
 
+// compRanges records, for heap components holding Go integers, the integer type (typing invariant:
+// every value stored in such a component is within the range of its type).
+var compRanges = map[string]intInfo{}
+var layoutUnit = NewUnit("layout", ModeInt, nil)
+
+func regRange(name string, t types.Type, suffix string) string {
+	if _, ok := compRanges[name]; ok {
+		return name
+	}
+	defer func() { recover() }()
+	for _, sl := range layoutUnit.Layout(t) {
+		if sl.Suffix == suffix && sl.Int != nil {
+			compRanges[name] = *sl.Int
+		}
+	}
+	return name
+}
+
 func fieldComp(owner types.Type, fname string, suffix string) string {
-	return sanitize("F$" + structKey(owner) + "$" + fname + suffix)
+	name := sanitize("F$" + structKey(owner) + "$" + fname + suffix)
+	st := structOf(owner)
+	for i := 0; i < st.NumFields(); i++ {
+		if st.Field(i).Name() == fname {
+			regRange(name, st.Field(i).Type(), suffix)
+		}
+	}
+	return name
 }
 func subFn(owner types.Type, fname string) string {
 	return sanitize("sub$" + structKey(owner) + "$" + fname)
 }
-func cellComp(t types.Type, suffix string) string { return sanitize("C$" + typeKey(t) + suffix) }
-func elemComp(t types.Type, suffix string) string { return sanitize("E$" + typeKey(t) + suffix) }
-func mapDomComp(k, v types.Type) string            { return sanitize("MD$" + typeKey(k) + "$" + typeKey(v)) }
+func cellComp(t types.Type, suffix string) string {
+	return regRange(sanitize("C$"+typeKey(t)+suffix), t, suffix)
+}
+func elemComp(t types.Type, suffix string) string {
+	return regRange(sanitize("E$"+typeKey(t)+suffix), t, suffix)
+}
+func mapDomComp(k, v types.Type) string { return sanitize("MD$" + typeKey(k) + "$" + typeKey(v)) }
 func mapValComp(k, v types.Type, suffix string) string {
-	return sanitize("MV$" + typeKey(k) + "$" + typeKey(v) + suffix)
+	return regRange(sanitize("MV$"+typeKey(k)+"$"+typeKey(v)+suffix), v, suffix)
 }
 func mapCardComp(k, v types.Type) string { return sanitize("MC$" + typeKey(k) + "$" + typeKey(v)) }
 func globalComp(name, suffix string) string { return sanitize("G$" + name + suffix) }
